@@ -63,12 +63,14 @@ package c12
 
 import (
 	"context"
+	"crypto/sha256"
 	"encoding/json"
 	"errors"
 	"fmt"
 	"net/http"
 	"net/http/httptest"
 	"reflect"
+	"runtime"
 	"sort"
 	"strings"
 	"sync"
@@ -1215,7 +1217,7 @@ func TestVerifC12DebugAPI(t *testing.T) {
 		vreport.HarnessError("C12", dbgPart, "initial state is not empty: "+root.canon)
 		t.Fatal("harness error")
 	}
-	seen := map[string]bool{root.canon: true}
+	seen := map[[32]byte]bool{sha256.Sum256([]byte(root.canon)): true} // canonical forms are a few KB each: keyed by their SHA-256
 	p.AddStates(1)
 	p.AddTraces(1)
 	frontier := [][]*dOp{nil}
@@ -1246,7 +1248,8 @@ search:
 				}
 				p.Outcome(res.outcome)
 				dbgSt.statuses[res.outcome]++
-				if seen[res.canon] {
+				ck := sha256.Sum256([]byte(res.canon))
+				if seen[ck] {
 					continue
 				}
 				again, _ := runDbgHistory(hist, false)
@@ -1255,7 +1258,7 @@ search:
 					vreport.HarnessError("C12", dbgPart, fmt.Sprintf("two replays of %v reach different canonical states:\n%s\n%s", dbgHistNames(hist), res.canon, again.canon))
 					t.Fatal("harness nondeterminism")
 				}
-				seen[res.canon] = true
+				seen[ck] = true
 				p.Distinct(res.canon)
 				p.AddStates(1)
 				next = append(next, hist)
@@ -1266,6 +1269,12 @@ search:
 		}
 		perLevel = append(perLevel, len(next))
 		frontier = next
+	}
+	{
+		var ms runtime.MemStats
+		runtime.GC()
+		runtime.ReadMemStats(&ms)
+		p.Note("heap_mb_at_end", ms.HeapAlloc>>20)
 	}
 	p.Note("new_states_per_depth", perLevel)
 	p.Note("alphabet_size", len(ops))
